@@ -529,6 +529,16 @@ func (g *gen) addOneof(m *Message, fq string, c *fieldCtx, disc, flat bool) *One
 			// message variant
 			ref := g.variantMessage(flat || g.avoidQuiet("child_encoding_json"))
 			f = &Field{Name: g.fieldName(c.used, true), Number: g.nextNum(c), Kind: KMessage, TypeRef: ref, Card: Singular}
+			if child := g.msgDefs[ref]; flat && child != nil {
+				// promoted variant fields must stay clear of the parent's fields (names are reserved)
+				for _, cf := range child.Fields {
+					for c.used[cf.Name] || c.used["json:"+strings.ToLower(JSONName(cf.Name))] {
+						cf.Name += "x"
+					}
+					c.used[cf.Name] = true
+					c.used["json:"+strings.ToLower(JSONName(cf.Name))] = true
+				}
+			}
 		} else {
 			f = g.plainField(c)
 			f.Card = Singular
@@ -781,6 +791,17 @@ func (g *gen) annotate(m *Message, fq string, c *fieldCtx) {
 		if g.bool("flatprefix") {
 			f.Ann.FlattenPrefix = pick(g, []string{"billing_", "x", "p_"}, "prefix")
 			g.tagf("flatten_prefix")
+		}
+		// the promoted names (prefix + child field) must not meet a parent field, in proto or JSON spelling:
+		// the child is fresh, so its fields are renamed until they are free, and reserved for later fields
+		if child := g.msgDefs[ref]; child != nil {
+			for _, cf := range child.Fields {
+				for c.used[f.Ann.FlattenPrefix+cf.Name] || c.used["json:"+strings.ToLower(JSONName(f.Ann.FlattenPrefix+cf.Name))] {
+					cf.Name += "x"
+				}
+				c.used[f.Ann.FlattenPrefix+cf.Name] = true
+				c.used["json:"+strings.ToLower(JSONName(f.Ann.FlattenPrefix+cf.Name))] = true
+			}
 		}
 		mark("flatten")
 	}
